@@ -297,3 +297,18 @@ Proof.
     + rewrite slice_ok by (destruct (kind_eqb k KFirst); lia). cbn [bind].
       rewrite label_new_ok by (rewrite lenN_takeN, lenN_dropN; cbn [lt_len]; destruct (kind_eqb k KFirst); lia). cbn [bind]. eauto.
 Qed.
+
+(* the other API calls keep the state well formed *)
+Lemma dec_provision_wf s b : dstate_wf s -> dstate_wf (fst (dec_provision s b)) /\ dlast (fst (dec_provision s b)) = dlast s.
+Proof.
+  intro H. unfold dec_provision. destruct (provision (dmem s) b) as [m r] eqn:E. cbn [fst]. split; [|reflexivity].
+  apply dstate_wf_mem. cbn [dmem set_dmem]. eapply mem_ok_provision; eauto.
+Qed.
+Lemma dec_new_pdu_wf s : dstate_wf s -> dstate_wf (fst (dec_new_pdu s)) /\ dlast (fst (dec_new_pdu s)) = dlast s.
+Proof.
+  intro Hs. unfold dec_new_pdu, new_pdu. destruct (storages (dmem s)) as [|b t0] eqn:E; cbn [fst]; (split; [|reflexivity]).
+  - apply dstate_wf_mem. cbn [dmem set_dmem]. exact Hs.
+  - apply dstate_wf_mem; cbn [dmem set_dmem]. destruct Hs as ((Hf & Hc) & Hb & Hsl).
+    rewrite E in Hb, Hc. inversion Hb; subst. rewrite lenN_cons in Hc.
+    apply mem_ok_set_storages; [split; [split|split]; try assumption; rewrite E; [rewrite lenN_cons; lia|constructor; assumption]|lia|assumption].
+Qed.
